@@ -196,6 +196,15 @@ pub fn cmd(_args: &[String]) {
                     Err(p) => ("panic".to_string(), String::new(), String::new(), panic_message(&p)),
                 }
             }
+            // formatter (C10): the formatted text
+            "format" => {
+                let vm = entry.0.clone();
+                match catch_unwind(AssertUnwindSafe(|| vm.format_expr(&mut gluon_format::Formatter::default(), "prog", src))) {
+                    Ok(Ok(text)) => ("ok".to_string(), text, String::new(), String::new()),
+                    Ok(Err(e)) => ("err".to_string(), String::new(), String::new(), e.to_string()),
+                    Err(p) => ("panic".to_string(), String::new(), String::new(), panic_message(&p)),
+                }
+            }
             // parse only: dump of the AST (positions kept; the driver normalises)
             "parse" => match catch_unwind(AssertUnwindSafe(|| crate::parse::dump_raw(src))) {
                 Ok(Ok(d)) => ("ok".to_string(), d, String::new(), String::new()),
